@@ -19,7 +19,15 @@ What is proved, and how strongly.
 * `noninterference` — FULL strength (all histories, all interleavings, all `dist`): with a fixed receiver
   reference the outputs attached to one aircraft's reports are those of its own reports fed alone.
   `interference_with_update`: with an `update_reference` callback the reference is shared state and the
-  statement is false by design (witness).
+  statement is false (witness).
+* `finding_reference_update_wrong_position` — RECORDED FINDING (audit-d M1, `known_findings.d/C06.json`,
+  `C06-update-reference-moves-surface-reference`): with a callback (decode1090 always, jet1090
+  `--update-position`) clause 1 is FALSE — the low fix of one aircraft replaces the shared reference and a
+  surface report of another aircraft, more than 45 NM from it, gets a position one surface zone (5°, 182 km)
+  off, although `EncodesAll` and the per-aircraft hypotheses hold.  `kin_some_iff`: `Kin (some f)` = `Kin none`
+  ∧ `Pairwise (KinCross f)`; the cross-aircraft conjunct is the extra assumption of `sound` under a callback,
+  and it is not implied by the property's premises.  `sound_fixed_reference`: the `upd = none` instance,
+  whose hypothesis relates reports of one aircraft only.
 * `emitted_iff_airborne`, `emitted_iff_surface`, `entry_after_*` — FULL strength characterisation of one
   step with the literal windows and gates; they pin every number and comparison operator of the source.
 * `global_correct_two_points` — FULL strength, new: C04's theorem for a pair encoded from two different
@@ -40,12 +48,18 @@ What is proved, and how strongly.
   simulation only), and ellipsoid-vs-sphere (geodesic distance on WGS-84 ≤ great-circle distance on that sphere).
   `disorder_outside_kin`: outside `Kin` (time stamps exchanged across a long silence) a wrong position is
   attached — by the real code as well.
-* `sound_step`, `sound_partial` — the one-step lemmas `sound` is built from (hypothesis on the decoder's state).
+* `kinDeg_of_bounded_motion`, `moving_flight_kin`, `moving_flight_within_25m` — non-vacuity on a MOVING flight
+  (audit-d M6): `KinDeg` from decidable bounds between true positions (0.74 ° within 180 s, 1/25 ° for pairable
+  reports); a 566 kt flight with ten reports inside the 10 s / 180 s windows plus a taxiing aircraft satisfies
+  `EncodesAll`, `KinDeg`, `Kin` for every callback, and `sound_within_25m` applies to it.
+* `sound_step`, `sound_partial` — the one-step lemmas `sound` is built from (hypothesis on the decoder's state);
+  `sound_prefix` — `sound` for the first `n` deliveries when only they satisfy `EncodesAll`/`Kin`.
 * `surface_stale_witness` — the defect found (and repaired) in the surface branch, on the model of the code as
   it was; `source_gates_literal`, `gates_pinned` — the regenerated windows and gates are the documented ones.
 The `def`s of this file are statement vocabulary only (`entryOf`, `Truth`, `Encodes`, `SafeStep`, `Recovered`,
-`History`, `EncodesAll`, `latticeOf`, `NearOf`, `PairOf`, `KinRel`, `Kin`, `NearDeg`, `KinRelDeg`, `KinDeg`,
-`Confined`, the witness and example histories and their metric).
+`History`, `EncodesAll`, `latticeOf`, `NearOf`, `PairOf`, `KinRel`, `Kin`, `KinOwn`, `KinCross`, `NearDeg`,
+`KinRelDeg`, `KinDeg`, `Confined`, `Within`, `MoveOk`, `CrossOk`, the witness and example histories and their
+metrics).
 -/
 import Rs1090.Proofs.CprStateInv
 import Rs1090.Proofs.CprStateKin
@@ -538,6 +552,48 @@ def Kin (upd : Option (Report → Bool)) (reference : Option Pos) (H : History) 
   H.Pairwise (KinRel upd) ∧
   ∀ y ∈ H, y.1.kind = .surface → ∀ rf, reference = some rf → NearOf y rf
 
+/-- the part of `KinRel` that does not depend on the callback (first conjunct): reports of ONE aircraft -/
+def KinOwn (x y : Report × Truth) : Prop :=
+  x.1.addr = y.1.addr →
+    (x.1.kind = .airborne → y.1.kind = .airborne → x.2.i ≠ y.2.i →
+      0 ≤ y.1.ts - x.1.ts → y.1.ts - x.1.ts < 10 → PairOf x y) ∧
+    (x.1.kind ≠ .other → y.1.ts - x.1.ts < 180 → NearOf y (latticeOf x))
+
+/-- the part of `KinRel` that exists only with a callback `f` (second conjunct): it relates ANY TWO aircraft —
+    every fix `x` on which the closure answers true must lie inside the near box (45 NM) of every surface
+    report `y` delivered later, of any address, however much later.  This is a hypothesis on the MIX OF
+    TRAFFIC; it does not follow from "≤ 700 kt, receiver within 40 NM" (audit-d M1). -/
+def KinCross (f : Report → Bool) (x y : Report × Truth) : Prop :=
+  f x.1 = true → x.1.kind = .airborne → y.1.kind = .surface → NearOf y (latticeOf x)
+
+/-- without a callback `KinRel` constrains reports of one aircraft only -/
+theorem kinRel_none (x y : Report × Truth) : KinRel none x y ↔ KinOwn x y := by
+  unfold KinRel KinOwn
+  exact ⟨fun h => h.1, fun h => ⟨h, fun f hf => by cases hf⟩⟩
+
+/-- with a callback `f` it is that AND the cross-aircraft clause -/
+theorem kinRel_some (f : Report → Bool) (x y : Report × Truth) :
+    KinRel (some f) x y ↔ KinOwn x y ∧ KinCross f x y := by
+  unfold KinRel KinOwn KinCross
+  constructor
+  · exact fun h => ⟨h.1, h.2 f rfl⟩
+  · rintro ⟨h1, h2⟩
+    refine ⟨h1, fun g hg => ?_⟩
+    cases hg
+    exact h2
+
+/-- **Exactly what `sound` assumes more when `upd = some f`**: `Kin (some f)` is the fixed-reference
+    hypothesis `Kin none` PLUS `KinCross f` for every pair (earlier delivered, later delivered) of the history. -/
+theorem kin_some_iff (f : Report → Bool) (reference : Option Pos) (H : History) :
+    Kin (some f) reference H ↔ Kin none reference H ∧ H.Pairwise (KinCross f) := by
+  unfold Kin
+  have e1 : H.Pairwise (KinRel (some f)) ↔ H.Pairwise (fun x y => KinOwn x y ∧ KinCross f x y) :=
+    ⟨fun h => h.imp (fun h => (kinRel_some f _ _).1 h), fun h => h.imp (fun h => (kinRel_some f _ _).2 h)⟩
+  have e2 : H.Pairwise (KinRel none) ↔ H.Pairwise KinOwn :=
+    ⟨fun h => h.imp (fun h => (kinRel_none _ _).1 h), fun h => h.imp (fun h => (kinRel_none _ _).2 h)⟩
+  rw [e1, e2, List.pairwise_and_iff]
+  tauto
+
 /-- the near box of `y` holds for every point recovered from `x` (longitude on any turn) as soon as it holds
     for `x`'s lattice point -/
 theorem near_of_recovered (x y : Report × Truth) (lp : Pos) (h : NearOf y (latticeOf x))
@@ -645,7 +701,18 @@ theorem sound_log (dist : Pos → Pos → Rat) (upd : Option (Report → Bool)) 
 
     What remains OUTSIDE Lean: that aircraft flying at ≤ 700 kt whose time stamps are disordered only
     locally (see `Kin`), with the receiver within 40 NM of every surface report, satisfy `Kin` (`KinDeg`) —
-    spherical kinematics, established by the simulation of the harness only. -/
+    spherical kinematics, established by the simulation of the harness only.
+
+    THE EXTRA ASSUMPTION WHEN `upd = some f` (audit-d M1).  `Kin (some f) reference H` is `Kin none reference H`
+    AND `H.Pairwise (KinCross f)` (`kin_some_iff`): the second conjunct of `KinRel`, "every fix of ANY aircraft
+    on which the closure answers true lies within the near box (45 NM) of every surface report of ANY aircraft
+    delivered later".  That conjunct is NOT implied by the premises of the property (≤ 700 kt, receiver within
+    40 NM): it restricts which aircraft may be in the air together.  Where it fails the code DOES attach a
+    wrong position — `finding_reference_update_wrong_position` below, the recorded finding
+    `C06-update-reference-moves-surface-reference` (decode1090 always passes a closure, jet1090 with
+    `--update-position`).  So with a callback this theorem proves clause 1 only for traffic confined to one
+    airport's neighbourhood; the clause as the property states it is proved for `upd = none`
+    (`sound_fixed_reference`, whose hypothesis relates reports of one aircraft only). -/
 theorem sound (dist : Pos → Pos → Rat) (upd : Option (Report → Bool)) (reference : Option Pos)
     (H : History) (henc : EncodesAll H) (hkin : Kin upd reference H)
     (k : ℕ) (x : Report × Truth) (p : Pos) (hx : H[k]? = some x)
@@ -653,6 +720,23 @@ theorem sound (dist : Pos → Pos → Rat) (upd : Option (Report → Bool)) (ref
     Recovered x.1 x.2 p :=
   sound_log dist upd reference H henc hkin (x, some p)
     (logOf_getElem? Gates.source dist upd (Cache.empty, reference) H k x (some p) hx h) p rfl
+
+/-- **`sound` for a prefix of the deliveries.**  `Kin` is a conjunction over all pairs of the history, so ONE
+    report delivered outside the admitted disorder (later than the stamp slack allows, see notes/C06.md) makes
+    `Kin H` false and `sound H` silent.  The outputs of the reports delivered BEFORE it are still covered: if
+    `EncodesAll` and `Kin` hold for the first `n` deliveries, every position attached to one of them — in the run
+    over the WHOLE history — is the lattice point of its own report (later deliveries do not change earlier
+    outputs, `run_take`). -/
+theorem sound_prefix (dist : Pos → Pos → Rat) (upd : Option (Report → Bool)) (reference : Option Pos)
+    (H : History) (n : ℕ) (henc : EncodesAll (H.take n)) (hkin : Kin upd reference (H.take n))
+    (k : ℕ) (hk : k < n) (x : Report × Truth) (p : Pos) (hx : H[k]? = some x)
+    (h : (decodePositions Gates.source dist upd reference (H.map Prod.fst))[k]? = some (some p)) :
+    Recovered x.1 x.2 p := by
+  refine sound dist upd reference (H.take n) henc hkin k x p ?_ ?_
+  · rw [List.getElem?_take_of_lt hk]; exact hx
+  · unfold decodePositions at h ⊢
+    rw [List.map_take, run_take, List.getElem?_take_of_lt hk]
+    exact h
 
 /-- … and what the cache holds, with the truths: after any such history the last position of an entry, when
     present, is the lattice point (longitude on some turn) of the true position of an earlier report of
@@ -780,6 +864,24 @@ theorem sound_within_25m (dist : Pos → Pos → Rat) (upd : Option (Report → 
     (sound dist upd reference H henc hkin k x p hx h)
 
 open Rs1090.Proofs.Metres Rs1090.Proofs.Geo in
+/-- **Clause 1 with a fixed receiver reference** (`update_reference = None`: Python binding, `examples/flight.rs`,
+    jet1090 by default) — the `upd = none` instance of `sound` / `sound_within_25m`, with its hypothesis spelled
+    out: `KinOwn` for every pair (earlier delivered, later delivered) — a condition on the reports of ONE
+    aircraft at a time (pair box within 10 s, near box within 180 s) — and the fixed reference inside the
+    near box of every surface report.  NO hypothesis relates two different aircraft: under a fixed reference
+    the traffic mix is irrelevant (as `noninterference` says of the outputs). -/
+theorem sound_fixed_reference (dist : Pos → Pos → Rat) (reference : Option Pos)
+    (H : History) (henc : EncodesAll H) (hown : H.Pairwise KinOwn)
+    (href : ∀ y ∈ H, y.1.kind = .surface → ∀ rf, reference = some rf → NearOf y rf)
+    (k : ℕ) (x : Report × Truth) (p : Pos) (hx : H[k]? = some x)
+    (h : (decodePositions Gates.source dist none reference (H.map Prod.fst))[k]? = some (some p)) :
+    Recovered x.1 x.2 p ∧
+    gcDist 6399594 (rad x.2.lat) (rad x.2.lon) (rad p.lat) (rad p.lon) < 25 := by
+  have hkin : Kin none reference H := ⟨hown.imp (fun h => (kinRel_none _ _).2 h), href⟩
+  exact ⟨sound dist none reference H henc hkin k x p hx h,
+    (sound_within_25m dist none reference H henc hkin k x p hx h).2.2⟩
+
+open Rs1090.Proofs.Metres Rs1090.Proofs.Geo in
 /-- `sound_within_25m` under the degree form `KinDeg` of the kinematic hypothesis (bounds between TRUE
     positions only): what is left to the simulation is exactly "≤ 700 kt and the windows ⇒ `KinDeg`". -/
 theorem sound_deg_within_25m (dist : Pos → Pos → Rat) (upd : Option (Report → Bool)) (reference : Option Pos)
@@ -830,6 +932,80 @@ theorem kinDeg_of_confined (upd : Option (Report → Bool)) (c : Pos) (reference
       _ ≤ 144 := by norm_num
   · intro y hy _ rf hrf
     exact near _ _ y (tri _ _ _ (h.2 rf hrf).1 (h.1 y hy).1) (tri _ _ _ (h.2 rf hrf).2 (h.1 y hy).2)
+
+/-- the true positions of `x` and `y` differ by at most `c` degrees in each coordinate (decidable) -/
+def Within (c : ℚ) (x y : Report × Truth) : Prop :=
+  -c ≤ x.2.lat - y.2.lat ∧ x.2.lat - y.2.lat ≤ c ∧ -c ≤ x.2.lon - y.2.lon ∧ x.2.lon - y.2.lon ≤ c
+
+instance (c : ℚ) (x y : Report × Truth) : Decidable (Within c x y) := by unfold Within; infer_instance
+
+/-- what bounded motion asks of two reports of ONE aircraft (true positions only; decidable): at most 0.74 ° apart
+    in each coordinate — 82 km of latitude; at ≤ 700 kt that is more than 225 s — and at most 1/25 ° apart
+    (4.4 km of latitude, ≥ 12 s at 700 kt) when they are of opposite formats and stamped `0 ≤ Δ < 10 s` apart -/
+def MoveOk (x y : Report × Truth) : Prop :=
+  x.1.addr = y.1.addr →
+    Within (74 / 100) x y ∧
+    (x.2.i ≠ y.2.i → 0 ≤ y.1.ts - x.1.ts → y.1.ts - x.1.ts < 10 → Within (1 / 25) x y)
+
+instance (x y : Report × Truth) : Decidable (MoveOk x y) := by unfold MoveOk; infer_instance
+
+/-- the cross-aircraft counterpart needed under a callback: an airborne report and a later surface report of
+    ANY aircraft are at most 0.74 ° apart (one airport's neighbourhood) -/
+def CrossOk (x y : Report × Truth) : Prop :=
+  x.1.kind = .airborne → y.1.kind = .surface → Within (74 / 100) x y
+
+instance (x y : Report × Truth) : Decidable (CrossOk x y) := by unfold CrossOk; infer_instance
+
+/-- 0.74 ° in each coordinate is inside both degree boxes (`Dlon ≥ 360/59`) -/
+theorem nearDeg_of_within (lat' lon' : ℚ) (y : Report × Truth)
+    (h : -(74 / 100) ≤ lat' - y.2.lat ∧ lat' - y.2.lat ≤ 74 / 100 ∧
+      -(74 / 100) ≤ lon' - y.2.lon ∧ lon' - y.2.lon ≤ 74 / 100) : NearDeg lat' lon' y := by
+  obtain ⟨h1, h2, h3, h4⟩ := h
+  have hl : |lat' - y.2.lat| ≤ 74 / 100 := abs_le.2 ⟨h1, h2⟩
+  have hn : |lon' - y.2.lon| ≤ 74 / 100 := abs_le.2 ⟨h3, h4⟩
+  unfold NearDeg
+  cases y.1.kind <;> simp only
+  · have := dlon_ge y.2.i (rlat 17 y.2.i y.2.lat)
+    exact ⟨by linarith, 0, by simp only [Int.cast_zero, mul_zero, add_zero]; linarith⟩
+  · have := dlon_ge y.2.i (rlat 19 y.2.i y.2.lat)
+    exact ⟨by linarith, 0, by simp only [Int.cast_zero, mul_zero, add_zero]; linarith⟩
+
+/-- 1/25 ° in each coordinate is inside the pair box in every band (`59·58/25 ≤ 144`) -/
+theorem pairOf_of_within (x y : Report × Truth) (h : Within (1 / 25) x y) : PairOf x y := by
+  obtain ⟨h1, h2, h3, h4⟩ := h
+  have hl : |x.2.lat - y.2.lat| ≤ 1 / 25 := abs_le.2 ⟨h1, h2⟩
+  have hn : |x.2.lon - y.2.lon| ≤ 1 / 25 := abs_le.2 ⟨h3, h4⟩
+  refine ⟨le_trans hl (by norm_num), fun _ => ⟨0, ?_⟩⟩
+  simp only [Int.cast_zero, mul_zero, add_zero]
+  have h1 : (1 : ℚ) ≤ (NL (rlat 17 y.2.i y.2.lat) : ℚ) := by exact_mod_cast NL_ge_1 _
+  have h2 : (NL (rlat 17 y.2.i y.2.lat) : ℚ) ≤ 59 := by exact_mod_cast NL_le_59 _
+  calc (NL (rlat 17 y.2.i y.2.lat) : ℚ) * ((NL (rlat 17 y.2.i y.2.lat) : ℚ) - 1) * |x.2.lon - y.2.lon|
+      ≤ 3422 * (1 / 25) := mul_le_mul (by nlinarith) hn (abs_nonneg _) (by norm_num)
+    _ ≤ 144 := by norm_num
+
+/-- **`KinDeg` (hence `Kin`) for MOVING aircraft** (audit-d M6; generalises `kinDeg_of_confined`, which is the
+    case of a 1/25 ° box): a history satisfies `KinDeg` as soon as, pairwise (earlier delivered, later delivered),
+    reports of one aircraft are within 0.74 ° of each other and within 1/25 ° when they can be paired (opposite
+    formats, recorded stamps `0 ≤ Δ < 10 s`); with a callback, additionally every airborne report is within
+    0.74 ° of every later surface report; and the receiver is within 0.74 ° of every surface report.  All
+    hypotheses are decidable on a concrete history (`moving_flight_kin`). -/
+theorem kinDeg_of_bounded_motion (upd : Option (Report → Bool)) (reference : Option Pos) (H : History)
+    (hown : H.Pairwise MoveOk) (hcross : upd ≠ none → H.Pairwise CrossOk)
+    (href : ∀ y ∈ H, y.1.kind = .surface → ∀ rf, reference = some rf →
+      -(74 / 100) ≤ rf.lat - y.2.lat ∧ rf.lat - y.2.lat ≤ 74 / 100 ∧
+      -(74 / 100) ≤ rf.lon - y.2.lon ∧ rf.lon - y.2.lon ≤ 74 / 100) :
+    KinDeg upd reference H := by
+  refine ⟨?_, fun y hy hk rf hrf => nearDeg_of_within _ _ y (href y hy hk rf hrf)⟩
+  cases upd with
+  | none =>
+    refine hown.imp (fun {x y} h => ⟨fun ha => ?_, fun f hf => by cases hf⟩)
+    exact ⟨fun _ _ hi h0 h10 => pairOf_of_within x y ((h ha).2 hi h0 h10),
+      fun _ _ => nearDeg_of_within _ _ y (h ha).1⟩
+  | some f =>
+    have hc := hcross (by simp)
+    refine (hown.and hc).imp (fun {x y} h => ⟨fun ha => ?_, fun _ _ _ hx hy => nearDeg_of_within _ _ y (h.2 hx hy)⟩)
+    exact ⟨fun _ _ hi h0 h10 => pairOf_of_within x y ((h.1 ha).2 hi h0 h10),
+      fun _ _ => nearDeg_of_within _ _ y (h.1 ha).1⟩
 
 /-! ### the defect that was repaired, and interference through `update_reference` -/
 
@@ -927,8 +1103,8 @@ theorem disorder_outside_kin :
     have h2' : k < (1 : ℤ) := by exact_mod_cast h2
     omega
 
-/-- **With an `update_reference` callback the receiver reference is shared state: interference is possible by
-    design.**  Aircraft 1 sends one surface report next to the receiver (71°, −90°); alone it is decoded
+/-- **With an `update_reference` callback the receiver reference is shared state: interference is possible**
+    (and the position attached is WRONG: `finding_reference_update_wrong_position` below, a recorded finding).  Aircraft 1 sends one surface report next to the receiver (71°, −90°); alone it is decoded
     correctly (longitude −90°).  Interleaved after two low-altitude airborne reports of aircraft 2 near
     (70.987°, −94.99°) — which move the reference there — the same report gets longitude −95°. -/
 theorem interference_with_update :
@@ -942,6 +1118,79 @@ theorem interference_with_update :
     outputsOf 1 h (decodePositions Gates.source distHigh upd (some ⟨71, -90⟩) h)
       = [some ⟨137244015 / 1933312, -95⟩] := by
   refine ⟨by decide +kernel, by decide +kernel⟩
+
+/-- the history of `corpus/C06/reference_update_wrong_position.txt` with the true positions: aircraft 2 sends an
+    even and an odd BDS 0,5 report, on which the callers' closure answers true (below 1000 ft), from
+    (70.9867°, −94.9974°); aircraft 1, on the ground at (70.98907°, −90.0000001°) next to the receiver (71°, −90°),
+    then sends an odd BDS 0,6 report -/
+def refUpdateHistory : History := [
+  ({ ts := 755581 / 1024, addr := 2, kind := .airborne, msg := ⟨.even, 108936, 129269⟩, low := true },
+    ⟨0, 304885543845 / 4294967296, -408010903220 / 4294967296⟩),
+  ({ ts := 756010 / 1024, addr := 2, kind := .airborne, msg := ⟨.odd, 83092, 32811⟩, low := true },
+    ⟨1, 304885785217 / 4294967296, -407993544603 / 4294967296⟩),
+  ({ ts := 756100 / 1024, addr := 1, kind := .surface, msg := ⟨.odd, 70422, 0⟩ },
+    ⟨1, 304895717775 / 4294967296, -386547056947 / 4294967296⟩)]
+/-- **FINDING `C06-update-reference-moves-surface-reference` (known, recorded in `known_findings.d/C06.json`):
+    with an `update_reference` callback a WRONG POSITION is attached** (not only a different one, as
+    `interference_with_update` says).  On `refUpdateHistory` every report carries the encoding of its true
+    position (`EncodesAll`) and the premises of the property hold in the form `sound_fixed_reference` needs
+    (`Kin none`: per-aircraft boxes, receiver inside the near box of the surface report).  With
+    `update_reference = None` the surface report of aircraft 1 gets its lattice point, longitude −90°.  With the
+    callback (decode1090 always; jet1090 `--update-position`) the fix of aircraft 2 replaces the shared
+    reference and the same report gets longitude −95°: one odd surface zone (90/18 = 5°; 181 869 m by the
+    harness oracle on the real code) from where the aircraft is — not `Recovered`.  `Kin (some f)` is false on
+    this history, through its cross-aircraft conjunct only (`kin_some_iff`). -/
+theorem finding_reference_update_wrong_position :
+    EncodesAll refUpdateHistory ∧
+    Kin none (some ⟨71, -90⟩) refUpdateHistory ∧
+    ¬ Kin (some (·.low)) (some ⟨71, -90⟩) refUpdateHistory ∧
+    latticeOf refUpdateHistory[2] = ⟨137244015 / 1933312, -90⟩ ∧
+    (decodePositions Gates.source distHigh none (some ⟨71, -90⟩) (refUpdateHistory.map Prod.fst))[2]?
+      = some (some ⟨137244015 / 1933312, -90⟩) ∧
+    (decodePositions Gates.source distHigh (some (·.low)) (some ⟨71, -90⟩) (refUpdateHistory.map Prod.fst))[2]?
+      = some (some ⟨137244015 / 1933312, -95⟩) ∧
+    ¬ Recovered refUpdateHistory[2].1 refUpdateHistory[2].2 ⟨137244015 / 1933312, -95⟩ := by
+  have henc : EncodesAll refUpdateHistory := by
+    intro x hx
+    simp only [refUpdateHistory, List.mem_cons, List.not_mem_nil, or_false] at hx
+    rcases hx with rfl | rfl | rfl <;>
+      exact ⟨by decide, by constructor <;> norm_num, by decide +kernel⟩
+  have hrlon : rlon 19 1 (rlat 19 1 (304895717775 / 4294967296)) (-386547056947 / 4294967296) = -90 := by
+    decide +kernel
+  refine ⟨henc, ?_, ?_, by decide +kernel, by decide +kernel, by decide +kernel, ?_⟩
+  · refine kin_of_deg none _ _ henc (kinDeg_of_bounded_motion none _ _ (by decide +kernel) (fun h => (h rfl).elim) ?_)
+    intro y hy hk rf hrf
+    cases hrf
+    simp only [refUpdateHistory, List.mem_cons, List.not_mem_nil, or_false] at hy
+    rcases hy with rfl | rfl | rfl
+    · cases hk
+    · cases hk
+    · norm_num
+  · intro hk
+    have h := hk.1
+    simp only [refUpdateHistory, List.pairwise_cons] at h
+    have h12 := (h.2.1 _ List.mem_cons_self).2 (·.low) rfl rfl rfl rfl
+    have hl : latticeOf refUpdateHistory[1] = ⟨17154945 / 241664, -3112745 / 32768⟩ := by decide +kernel
+    simp only [refUpdateHistory, List.getElem_cons_succ, List.getElem_cons_zero] at hl
+    have hd : dlon 1 (rlat 19 1 (304895717775 / 4294967296)) = 20 := by decide +kernel
+    unfold NearOf at h12
+    simp only [hl] at h12
+    obtain ⟨k, hk⟩ := h12.2
+    rw [hrlon, hd, abs_lt] at hk
+    have h1 : (-1 : ℚ) < k := by linarith [hk.1]
+    have h2 : (k : ℚ) < 0 := by linarith [hk.2]
+    have h1' : (-1 : ℤ) < k := by exact_mod_cast h1
+    have h2' : k < (0 : ℤ) := by exact_mod_cast h2
+    omega
+  · intro hr
+    simp only [refUpdateHistory, List.getElem_cons_succ, List.getElem_cons_zero, Recovered] at hr
+    obtain ⟨k, hk⟩ := hr.2
+    rw [hrlon] at hk
+    have h1 : (-1 : ℚ) < k := by linarith
+    have h2 : (k : ℚ) < 0 := by linarith
+    have h1' : (-1 : ℤ) < k := by exact_mod_cast h1
+    have h2' : k < (0 : ℤ) := by exact_mod_cast h2
+    omega
 
 /-! ### non-vacuity -/
 
@@ -1119,5 +1368,87 @@ example :
       2 _ ⟨68620005 / 966656, -778215 / 8192⟩ rfl (by decide +kernel)).1,
     (sound_deg_within_25m distHigh none (some ⟨71, -95⟩) branchHistory henc hk
       3 _ ⟨274480425 / 3866624, -12451425 / 131072⟩ rfl (by decide +kernel)).2.1 rfl⟩
+
+/-! ### non-vacuity on a MOVING flight (audit-d M6) -/
+
+/-- a taxicab over-estimate of the great-circle distance (km) for points at latitudes ≥ 48°: 111 km per degree of
+    latitude, 75 km per degree of longitude (the theorems hold for every `dist`; this one only has to let the
+    50 km gate and the 1 km continuity test behave as `dist_haversine` does on `movingHistory`) -/
+def dist48 (p q : Pos) : Rat :=
+  111 * Spec.Cpr.absR (p.lat - q.lat) + 75 * Spec.Cpr.absR (p.lon - q.lon)
+
+/-- `corpus/C06/kin_moving.txt`: aircraft 1 flies north-east from (47.949°, 11.000°) at 566 kt — 3/256 ° of
+    latitude (1.30 km) and 1/64 ° of longitude (1.16 km at 48°) every 6 s, crossing the zone edge at 48° — and
+    sends ten BDS 0,5 reports of alternating format at 0, 6, …, 54 s (every consecutive pair is inside the 10 s
+    window, every pair inside the 180 s window), all below the callback's altitude; total displacement 27/256 °
+    = 0.105° > 1/25°, 15.7 km.  Aircraft 2 taxies at (48.0508°, 11.1016°) and sends two BDS 0,6 reports at 20 s
+    and 41 s, interleaved.  Receiver at (48.1016°, 11.1992°).  Time stamps = encoding times. -/
+def movingHistory : History := [
+  ({ ts := 0, addr := 1, kind := .airborne, msg := ⟨.even, 129963, 29127⟩, low := true }, ⟨0, 12275 / 256, 704 / 64⟩),
+  ({ ts := 6, addr := 1, kind := .airborne, msg := ⟨.odd, 112757, 25344⟩, low := true }, ⟨1, 12278 / 256, 705 / 64⟩),
+  ({ ts := 12, addr := 1, kind := .airborne, msg := ⟨.even, 130475, 29582⟩, low := true }, ⟨0, 12281 / 256, 706 / 64⟩),
+  ({ ts := 18, addr := 1, kind := .airborne, msg := ⟨.odd, 113260, 25788⟩, low := true }, ⟨1, 12284 / 256, 707 / 64⟩),
+  ({ ts := 20, addr := 2, kind := .surface, msg := ⟨.even, 4437, 122425⟩ }, ⟨0, 12301 / 256, 2842 / 256⟩),
+  ({ ts := 24, addr := 1, kind := .airborne, msg := ⟨.even, 130987, 30037⟩, low := true }, ⟨0, 12287 / 256, 708 / 64⟩),
+  ({ ts := 30, addr := 1, kind := .airborne, msg := ⟨.odd, 113764, 26231⟩, low := true }, ⟨1, 12290 / 256, 709 / 64⟩),
+  ({ ts := 36, addr := 1, kind := .airborne, msg := ⟨.even, 427, 30492⟩, low := true }, ⟨0, 12293 / 256, 710 / 64⟩),
+  ({ ts := 41, addr := 2, kind := .surface, msg := ⟨.odd, 65551, 106271⟩ }, ⟨1, 196817 / 4096, 45473 / 4096⟩),
+  ({ ts := 42, addr := 1, kind := .airborne, msg := ⟨.odd, 114267, 26675⟩, low := true }, ⟨1, 12296 / 256, 711 / 64⟩),
+  ({ ts := 48, addr := 1, kind := .airborne, msg := ⟨.even, 939, 30948⟩, low := true }, ⟨0, 12299 / 256, 712 / 64⟩),
+  ({ ts := 54, addr := 1, kind := .airborne, msg := ⟨.odd, 114770, 27119⟩, low := true }, ⟨1, 12302 / 256, 713 / 64⟩)]
+
+/-- **`EncodesAll`, `KinDeg` and `Kin` hold on a MOVING flight, for every callback**, with reports inside the
+    10 s and the 180 s windows, and the decoder attaches a position to the eleven reports after the first
+    (pair branch for aircraft 1, receiver reference — under the callback: the latest low fix of aircraft 1 —
+    then last position for aircraft 2).  The hypotheses of `sound` are therefore satisfiable by traffic that
+    moves by more than the 1/25 ° box of `kinDeg_of_confined`; by `kinDeg_of_bounded_motion` (arithmetic on the
+    true positions, `decide +kernel`). -/
+theorem moving_flight_kin :
+    EncodesAll movingHistory ∧
+    (∀ upd, KinDeg upd (some ⟨12314 / 256, 2867 / 256⟩) movingHistory ∧
+      Kin upd (some ⟨12314 / 256, 2867 / 256⟩) movingHistory) ∧
+    decodePositions Gates.source dist48 (some (·.low)) (some ⟨12314 / 256, 2867 / 256⟩) (movingHistory.map Prod.fst)
+      = [none, some ⟨46361745 / 966656, 705 / 64⟩, some ⟨3143937 / 65536, 722943 / 65536⟩,
+         some ⟨11596095 / 241664, 588225 / 53248⟩, some ⟨12596223 / 262144, 5820417 / 524288⟩,
+         some ⟨3145473 / 65536, 1449981 / 131072⟩, some ⟨11601765 / 241664, 2359545 / 212992⟩,
+         some ⟨3147009 / 65536, 363519 / 32768⟩, some ⟨185795235 / 3866624, 9458385 / 851968⟩,
+         some ⟨46429695 / 966656, 2366205 / 212992⟩, some ⟨3148545 / 65536, 364545 / 32768⟩,
+         some ⟨23226165 / 483328, 2372865 / 212992⟩] ∧
+    (1 : ℚ) / 25 < movingHistory[11].2.lat - movingHistory[0].2.lat := by
+  have henc : EncodesAll movingHistory := by
+    intro x hx
+    simp only [movingHistory, List.mem_cons, List.not_mem_nil, or_false] at hx
+    rcases hx with rfl | rfl | rfl | rfl | rfl | rfl | rfl | rfl | rfl | rfl | rfl | rfl <;>
+      exact ⟨by decide, by constructor <;> norm_num, by decide +kernel⟩
+  refine ⟨henc, fun upd => ?_, by decide +kernel, by decide +kernel⟩
+  have hk : KinDeg upd (some ⟨12314 / 256, 2867 / 256⟩) movingHistory := by
+    refine kinDeg_of_bounded_motion upd _ _ (by decide +kernel) (fun _ => by decide +kernel) ?_
+    intro y hy hk rf hrf
+    cases hrf
+    revert y
+    decide +kernel
+  exact ⟨hk, kin_of_deg upd _ _ henc hk⟩
+
+open Rs1090.Proofs.Metres Rs1090.Proofs.Geo in
+/-- … and `sound_within_25m` applied to it: whatever the distance function and the callback, every position
+    attached to a report of `movingHistory` is within 25 m of that report's true position; e.g. report 9
+    (aircraft 1, 42 s; ≤ 9.629 m) and report 8 (aircraft 2 on the ground, 41 s; ≤ 2.408 m). -/
+theorem moving_flight_within_25m :
+    (∀ (dist : Pos → Pos → Rat) (upd : Option (Report → Bool)) (k : ℕ) (x : Report × Truth) (p : Pos),
+      movingHistory[k]? = some x →
+      (decodePositions Gates.source dist upd (some ⟨12314 / 256, 2867 / 256⟩)
+        (movingHistory.map Prod.fst))[k]? = some (some p) →
+      gcDist 6399594 (rad x.2.lat) (rad x.2.lon) (rad p.lat) (rad p.lon) < 25) ∧
+    gcDist 6399594 (rad (movingHistory[9].2.lat : ℚ)) (rad (movingHistory[9].2.lon : ℚ))
+      (rad ((46429695 / 966656 : ℚ) : ℝ)) (rad ((2366205 / 212992 : ℚ) : ℝ)) ≤ 9629 / 1000 ∧
+    gcDist 6399594 (rad (movingHistory[8].2.lat : ℚ)) (rad (movingHistory[8].2.lon : ℚ))
+      (rad ((185795235 / 3866624 : ℚ) : ℝ)) (rad ((9458385 / 851968 : ℚ) : ℝ)) ≤ 2408 / 1000 := by
+  obtain ⟨henc, hkin, _, _⟩ := moving_flight_kin
+  refine ⟨fun dist upd k x p hx h =>
+    (sound_within_25m dist upd _ movingHistory henc (hkin upd).2 k x p hx h).2.2, ?_, ?_⟩
+  · exact (sound_within_25m dist48 (some (·.low)) _ movingHistory henc (hkin _).2
+      9 _ ⟨46429695 / 966656, 2366205 / 212992⟩ rfl (by decide +kernel)).1
+  · exact (sound_within_25m dist48 (some (·.low)) _ movingHistory henc (hkin _).2
+      8 _ ⟨185795235 / 3866624, 9458385 / 851968⟩ rfl (by decide +kernel)).2.1 rfl
 
 end Rs1090.Props.C06
